@@ -47,7 +47,7 @@ ASSUMPTIONS = [
     "an exception escaping pump_proxy_event is tolerated (the run loop logs and continues) as long as the flow is handed back",
 ]
 MUST_REACH = {"preempts_after_handback": 4, "scenarios": 40, "failpoint_runs": 500, "clean_runs": 40, "taken_flows_released": 30, "state_transfers_compared": 500,
-              "exceptions_escaped_pump": 50, "mitm_side_runs": 6, "e2e_runs": 100, "e2e_states_compared": 150, "session_only_capdata": 5, "locally_served_assets": 3, "line_failpoint_runs": 300, "mitm_history_runs": 6, "owners_gone_before_release": 10,
+              "exceptions_escaped_pump": 50, "mitm_side_runs": 6, "e2e_runs": 100, "e2e_states_compared": 150, "session_only_capdata": 5, "locally_served_assets": 3, "line_failpoint_runs": 300, "mitm_history_runs": 6, "owners_gone_before_release": 10, "owners_gone_while_another_avatar_stays": 5, "e2e_owner_left_between_request_and_response": 10,
               "deferred_releases": 100, "deferred_events_covered": 7, "deferred_webapp_flows": 5, "waiter_served_flows": 5,
               "waiter_abandoned_scenarios": 15}
 
@@ -346,8 +346,20 @@ def run_scenario(ctx, kind, event_type, behaviour, armed_at, mode="call"):
             if behaviour == "take_owner_gone":
                 # while the addon holds the flow, the session it belongs to logs out and is collected
                 import gc
+                # (alternately: only that avatar logs out and the other one stays, or everybody goes)
+                _BUILDS[0] += 0
+                owner = None
+                try:
+                    cd = addon.taken.cap_data
+                    owner = cd.session() if cd is not None and cd.session else None
+                except Exception:
+                    owner = None
                 for sess in list(rig.session_manager.sessions):
-                    rig.session_manager.sessions.remove(sess)
+                    if sess is owner or owner is None or _BUILDS[0] % 4 >= 2:
+                        rig.session_manager.sessions.remove(sess)
+                owner = None
+                if rig.session_manager.sessions:
+                    ctx.count("owners_gone_while_another_avatar_stays")
                 addon.session = None
                 session = None
                 sess = None
@@ -564,7 +576,7 @@ def mitm_view(flow):
     }
 
 
-def end_to_end(ctx, kind, behaviour, on, ua):
+def end_to_end(ctx, kind, behaviour, on, ua, owner_leaves=False):
     """Whole cycle through both processes' code: mitm addon -> queue -> main process -> queue -> mitm addon."""
     from hippolyzer.lib.proxy.http_proxy import IPCInterceptionAddon
     server_response = _server_response(kind)
@@ -590,6 +602,13 @@ def end_to_end(ctx, kind, behaviour, on, ua):
             if phase == "request":
                 ipc.request(flow)
             else:
+                if owner_leaves:
+                    # between the two events of the flow its avatar logs out (the other avatar stays): the response event names a
+                    # session the main process no longer knows - the flow has no owner now, and certainly not somebody else
+                    if session in rig.session_manager.sessions:
+                        rig.session_manager.sessions.remove(session)
+                    addon.session = None
+                    ctx.count("e2e_owner_left_between_request_and_response")
                 if flow.response is None:
                     flow.response = server_response
                 # (a response injected in the request phase still gets mitmproxy's response event)
@@ -622,6 +641,11 @@ def end_to_end(ctx, kind, behaviour, on, ua):
                 want = snaps[-1]
                 got = mitm_view(flow)
                 ctx.count("e2e_states_compared")
+                # (a login response is where a session is born: that flow gets the new session as its owner)
+                if owner_leaves and phase == "response" and kind != "login" and want["cap"] and \
+                        (want["cap"][3] is not None or want["cap"][4] is not None):
+                    ctx.violation("flow-attributed-to-another-avatar", "the response event of a flow whose avatar had logged out was "
+                                  "attributed to a session / region of somebody else", dict(wit, cap=repr(want["cap"])[:200]))
                 if phase == "request":
                     for k, v in expect_flags.items():
                         if want["meta"].get(k) != v:
@@ -732,6 +756,10 @@ def mitm_side(ctx):
     ctx.rng.shuffle(combos)
     for i, (k, b, on, ua) in enumerate(combos[:ctx.pick(120, len(combos))]):
         end_to_end(ctx, k, b, on, ua)
+        if i % 4 == 0 and on == "response":
+            end_to_end(ctx, k, b, on, ua, owner_leaves=True)
+    for k in URL_KINDS:
+        end_to_end(ctx, k, "ignore", "response", "viewer", owner_leaves=True)
 
 
 
